@@ -221,11 +221,11 @@ def isLitBool (v : Value) (b : Bool) : Bool := v.ty == .bool && (match v.v with 
 
 def andU (a b : Value) : Res Value := do
   match ← typeCheck .bool [a, b] with
-  | .none => pure (boolVal ((← asBool a) && (← asBool b)))
+  | .none => if !(← asBool a) then pure (boolVal false) else pure (boolVal (← asBool b))  -- Go's && short-circuits
   | _ => if isLitBool a false || isLitBool b false then pure (boolVal false) else pure unkBool
 def orU (a b : Value) : Res Value := do
   match ← typeCheck .bool [a, b] with
-  | .none => pure (boolVal ((← asBool a) || (← asBool b)))
+  | .none => if (← asBool a) then pure (boolVal true) else pure (boolVal (← asBool b))  -- Go's || short-circuits
   | _ => if isLitBool a true || isLitBool b true then pure (boolVal true) else pure unkBool
 def and := binMarks andU
 def or := binMarks orU
